@@ -731,3 +731,66 @@ VARIANTS += [
       "    self.arm_to_sum[target] = deepcopy(self.arm_to_sum[source])\n"
       "    self.arm_to_expectation[target] = deepcopy(self.arm_to_expectation[source])", benign=True),
 ]
+
+# ---------------------------------------------------------------------------------------------------- C20
+VARIANTS += [
+    V("c20-m1", "C20", "mab", "MAB.__init__", "self.arms = arms.copy()", "self.arms = sorted(arms)", "R20.1",
+      why="arm order (and with it tie-breaking) depends on the labels"),
+    V("c20-m2", "C20", "base_mab", "BaseMAB._get_cold_arm_to_warm_arm", "closest_arm = argmin(arm_to_distance)",
+      "closest_arm = min(arm_to_distance, key=lambda a: (arm_to_distance[a], a))", "R20.1",
+      why="ties between equally close trained arms broken by label"),
+    V("c20-m3", "C20", "greedy", "_EpsilonGreedy._fit_arm", "arm_rewards = rewards[decisions == arm]",
+      "arm_rewards = rewards[rewards == arm]", "R20.2", why="rows selected by comparing rewards with the label"),
+    V("c20-m4", "C20", "base_mab", "BaseMAB._parallel_fit",
+      "n_jobs = self._effective_jobs(len(self.arms), self.n_jobs)",
+      "n_jobs = self._effective_jobs(max(len(self.arms), max(self.arms)), self.n_jobs)", "R20.1",
+      why="numeric value of a label used"),
+    V("c20-m5", "C20", "greedy", "_EpsilonGreedy._uptake_new_arm", "self.arm_to_sum[arm] = 0",
+      "self.arm_to_sum[arm] = 0 * arm", "R20.1", why="arithmetic on a label"),
+    V("c20-m6", "C20", "base_mab", "BaseMAB._set_arms_as_trained", "arms = np.unique(decisions).tolist()",
+      "arms = [a for a in np.unique(decisions).tolist() if a >= self.arms[0]]", "R20.1",
+      why="labels compared by order"),
+    V("c20-m7", "C20", "thompson", "_ThompsonSampling._get_binary_rewards",
+      "return np.fromiter((self.binarizer(decisions[index], value) for index, value in enumerate(rewards)), "
+      "rewards.dtype)",
+      "return np.fromiter((self.binarizer(decisions[0], value) for index, value in enumerate(rewards)), "
+      "rewards.dtype)", "R20.2", why="every reward converted with the first row's decision"),
+    V("c20-m8", "C20", "linear", "_Linear._fit_arm", "y = rewards[indices]", "y = rewards[:len(X)]", "R20.2",
+      why="rewards not selected with the arm's row selector"),
+    V("c20-m9", "C20", "treebandit", "_TreeBandit._predict_contexts", "arms = deepcopy(self.arms)",
+      "arms = sorted(deepcopy(self.arms), key=str)", "R20.1", why="leaf expectations computed in label order"),
+    V("c20-b1", "C20", "rand", "_Random.predict_expectations",
+      "expectations = [dict(zip(self.arms, exp)).copy() for exp in random_values]",
+      "expectations = [{a: e for a, e in zip(self.arms, exp)} for exp in random_values]", benign=True),
+    V("c20-b2", "C20", "base_mab", "BaseMAB._set_arms_as_trained", "arms = np.unique(decisions).tolist()",
+      "arms = set(np.unique(decisions).tolist())", benign=True),
+]
+
+# ---------------------------------------------------------------------------------------------------- C19
+VARIANTS += [
+    V("c19-m1", "C19", "treebandit", "_TreeBandit.fit",
+      "self.arm_to_leaf_to_rewards = {arm: defaultdict(partial(np.ndarray, 0)) for arm in self.arms}",
+      "self.arm_to_leaf_to_rewards = {arm: defaultdict(lambda: np.ndarray(0)) for arm in self.arms}", "R19.1",
+      why="lambda default factory cannot be pickled"),
+    V("c19-m2", "C19", "base_mab", "BaseMAB._parallel_fit",
+      "n_jobs = self._effective_jobs(len(self.arms), self.n_jobs)",
+      "n_jobs = self._effective_jobs(len(self.arms), self.n_jobs)\n"
+      "self._pool = Parallel(n_jobs=n_jobs, require='sharedmem')", "R19.1",
+      why="a joblib Parallel object cached on the bandit"),
+    V("c19-m3", "C19", "linear", "_Linear.__init__", "self.regression = regression",
+      "self.regression = regression\n_Linear.factory.setdefault(regression, _RidgeRegression)", "R19.3",
+      why="class-level registry mutated: state outside the graph"),
+    V("c19-m4", "C19", "thompson", "_ThompsonSampling.__init__", "self.binarizer = binarizer",
+      "self.binarizer = binarizer if binarizer is not None else (lambda arm, reward: reward)", "R19.1",
+      why="lambda stored as default binarizer"),
+    V("c19-m5", "C19", "approximate", "_LSHNearest._initialize",
+      "self.table_to_hash_to_index = {k: defaultdict(list) for k in self.table_to_plane.keys()}",
+      "self.table_to_hash_to_index = {k: defaultdict(self._new_bucket) for k in self.table_to_plane.keys()}", "R19.1",
+      why="bound method of the bandit as default factory (cyclic, breaks deepcopy independence)"),
+    V("c19-m6", "C19", "neighbors", "_Neighbors.fit", "self.decisions = decisions",
+      "self.decisions = decisions\nself._row_ids = (i for i in range(len(decisions)))", "R19.1",
+      why="generator object stored on the bandit"),
+    V("c19-b1", "C19", "treebandit", "_TreeBandit.fit",
+      "self.arm_to_leaf_to_rewards = {arm: defaultdict(partial(np.ndarray, 0)) for arm in self.arms}",
+      "self.arm_to_leaf_to_rewards = {arm: defaultdict(partial(np.empty, 0)) for arm in self.arms}", benign=True),
+]
